@@ -208,3 +208,31 @@ Theorem C01_regenerated_run_refines_all : forall evs,
   g_alpha_run_all evs g_init = snd (ideal_run KAlpha [] (map fst evs)).
 Proof. exact gen_alpha_run_refines_all. Qed.
 Print Assumptions C01_regenerated_run_refines_all.
+
+(* the glue around the translated methods, regenerated as Gen/Bindings.v (Proofs/BindingFacts.v): the codec the byte-string
+   tree holds — AlphabeticalOrderKey.Transform / Restore of keys.go, translated — IS the pair (alpha_tr, alpha_rs) the
+   end-to-end theorem above plugs into the regenerated methods; every constructor builds its tree with root and size at
+   Go's zero value (nil, 0: the state g_init / Api.init every history starts from) and does nothing else; every kind of
+   tree has one *)
+From GoArt Require Import Proofs.BindingFacts.
+From GoArt Require Proofs.TranslateApiFacts.
+From GoArt Require Gen.Bindings.
+From Coq Require Import String.
+Local Open Scope string_scope.
+Theorem C01_regenerated_alpha_codec :
+  (forall k, Bindings.g_alpha_transform k = alpha_tr k) /\ (forall b, Bindings.g_alpha_restore b = TranslateApiFacts.alpha_rs b).
+Proof. exact (conj gen_alpha_transform_eq gen_alpha_restore_eq). Qed.
+Print Assumptions C01_regenerated_alpha_codec.
+Theorem C01_constructors_build_empty_trees : forall c f,
+  In c Bindings.constructors -> In f (ctor_fields c) ->
+  (fst f = "root"%string -> snd f = "nodeRef{}"%string) /\ (fst f = "size"%string -> snd f = "0"%string).
+Proof. exact constructors_leave_root_and_size_zero. Qed.
+Print Assumptions C01_constructors_build_empty_trees.
+Theorem C01_constructors_do_nothing_else : forallb ctor_ok Bindings.constructors = true.
+Proof. exact constructors_build_empty_trees. Qed.
+Print Assumptions C01_constructors_do_nothing_else.
+Theorem C01_every_tree_kind_has_a_constructor :
+  forallb (fun s => existsb (fun c => String.eqb (ctor_tree c) (fst s) && String.prefix "New" (ctor_name c)) Bindings.constructors)
+          Bindings.tree_structs = true.
+Proof. exact every_tree_kind_has_a_constructor. Qed.
+Print Assumptions C01_every_tree_kind_has_a_constructor.
